@@ -4,8 +4,6 @@ import (
 	"fmt"
 	"math/big"
 
-	"pgregory.net/rapid"
-
 	"github.com/Oneledger/protocol/consensus"
 	"github.com/Oneledger/protocol/data/balance"
 	"github.com/Oneledger/protocol/data/network_delegation"
@@ -64,16 +62,19 @@ func NewWorld(p sim.Params, pre []PrePending, roles []sim.Role) (*hist.World, er
 	return w, nil
 }
 
-// DrawEnv draws a block environment without byzantine evidence: gap from gaps, any proposer,
-// absent signers with probability 1/absentOneIn (0 = never).
-func DrawEnv(t *rapid.T, gaps []int64, absentOneIn int, txs []txgen.Tx) sim.BlockSpec {
+// Pick draws an approximately uniform element of xs.
+func Pick[T any](u *hist.U, xs []T, label string) T { return xs[u.N(len(xs), label)] }
+
+// DrawEnv draws a block environment without byzantine evidence: gap from gaps (uniform), any
+// proposer, absent signers with probability 1/absentOneIn (0 = never).
+func DrawEnv(u *hist.U, gaps []int64, absentOneIn int, txs []txgen.Tx) sim.BlockSpec {
 	spec := sim.BlockSpec{}
-	spec.GapSecs = rapid.SampledFrom(gaps).Draw(t, "gap")
-	spec.ProposerIdx = rapid.IntRange(0, 15).Draw(t, "proposer")
-	if absentOneIn > 0 && rapid.IntRange(0, absentOneIn-1).Draw(t, "hasabsent") == 0 {
-		na := rapid.IntRange(1, 2).Draw(t, "nabsent")
+	spec.GapSecs = Pick(u, gaps, "gap")
+	spec.ProposerIdx = u.N(16, "proposer")
+	if absentOneIn > 0 && u.N(absentOneIn, "hasabsent") == 0 {
+		na := u.Range(1, 2, "nabsent")
 		for i := 0; i < na; i++ {
-			spec.Absent = append(spec.Absent, rapid.IntRange(0, 15).Draw(t, "absent"))
+			spec.Absent = append(spec.Absent, u.N(16, "absent"))
 		}
 	}
 	for _, tx := range txs {
